@@ -343,6 +343,48 @@ pub fn run(prop: &str, tier: &str, replay: Option<&str>) -> i32 {
         run::sweep_cases(&sec, &pairs, &|p| format!("notBefore={} notAfter={}", inst[p.0].label(), inst[p.1].label()), &|p| judge_entry_points(prop, &inst[p.0], &inst[p.1], &ctxs));
         rep.add(sec);
     }
+    {
+        // the LENGTH of the validity period x the kind of certificate (other software has rules about 90, 397, 398, 825 days for
+        // TLS server certificates): every time field still says the caller's instant in the required form
+        let mut days: Vec<i64> = (0..=900).collect();
+        days.extend([1095, 1096, 1825, 3650, 3653, 7305, 9125, 36500, 36525]);
+        let starts = [TimeSpec::ymd(2024, 3, 1), TimeSpec::ymdhms(2049, 1, 1, 12, 0, 0), TimeSpec::ymdhms(2047, 10, 30, 0, 0, 0).with_offset(3600)];
+        let cases: Vec<(usize, i64, u8)> = (0..starts.len()).flat_map(|s| days.iter().flat_map(move |d| (0..4u8).map(move |k| (s, *d, k)))).collect();
+        let sec = Section::new("validity/durations x kinds", "notAfter = notBefore + d days for d in 0..=900 and 9 longer spans, from three starting points (two of them reach 2050), for a plain certificate, a TLS server / client end entity, an explicit end entity with serverAuth only, and a CA").with_deadline(cap);
+        run::sweep_cases(&sec, &cases, &|c| format!("start #{} + {} days, kind #{}", c.0, c.1, c.2), &|c| {
+            let mut out = Outcome::default();
+            let mut st = CertState::default();
+            st.not_before = starts[c.0];
+            st.not_after = TimeSpec { unix: starts[c.0].unix + c.1 * 86400, ..starts[c.0] };
+            st.serial = Some(vec![1]);
+            match c.2 {
+                1 => {
+                    st.ekus = vec![EkuSpec::ServerAuth, EkuSpec::ClientAuth];
+                    st.sans = vec![SanSpec::Dns("tls.example".into())];
+                }
+                2 => {
+                    st.is_ca = IsCaSpec::ExplicitNoCa;
+                    st.ekus = vec![EkuSpec::ServerAuth];
+                }
+                3 => {
+                    st.is_ca = IsCaSpec::Unconstrained;
+                    st.key_usages = vec![5, 6];
+                }
+                _ => {}
+            }
+            let ev = eval_cert(&st, &self_ctx);
+            out.transitions = ev.transitions;
+            if let Some(t) = &ev.tbs {
+                out.digest = fnv(t);
+            }
+            if let Some(p) = &ev.panic {
+                out.findings.push(Finding::new("TIME-PANIC(validity)", "notBefore/notAfter", p.clone()));
+            }
+            out.findings.extend(ev.findings.into_iter().filter(|f| crate::certeval::relevant(prop, f)));
+            out
+        });
+        rep.add(sec);
+    }
     let _ = stub_key;
     run::finish(rep)
 }
